@@ -79,15 +79,17 @@ REG["C05"] = {
 }
 
 REG["C14"] = {
-    "units": [], "kani_units": ["c14_timeout"],
-    "scope": "PARTIAL: only 'whichever limit is reached first' — the ordering used by StatefulExecutor::execute_all to pick the effective timeout "
+    "units": ["timeouts"], "kani_units": ["c14_timeout"],
+    "scope": "PARTIAL: (1) how the document limit is resolved — the three limit-resolving expressions of StatefulExecutor::execute_all and the one of the "
+             "single-script executor, extracted verbatim (@expr): configured value or the default, an explicit 0 means no deadline, any other value means a deadline, and with a "
+             "deadline there is always a remaining budget (an expired deadline never turns into 'no limit'); (2) 'whichever limit is reached first' — the ordering used by StatefulExecutor::execute_all to pick the effective timeout "
              "(derived Ord of the private struct Timeout, extracted with its derive list; `.min()` over Option<Timeout>) selects the smaller duration; "
              "loop-free Kani harness over the full domain of both limits (bool x u64 secs x u32 nanos each)",
     "assumptions": ["the selection expression itself (vec![..].into_iter().filter(is_some).min()) is inside execute_all, out of reach: the harness applies "
                     "Option::min to the extracted struct, which is what Iterator::min folds with; anchor checked textually",
                     "Kani/CBMC; rustc's expansion of #[derive(PartialOrd, Ord)] is what is proved (the struct text incl. attributes is copied verbatim)"],
     "not_decided": ["that the process is really aborted after that long (subprocess + kernel)", "skipped-vs-passed accounting after a timeout (bin/commands/test.rs)",
-                    "BashScriptExecutor's single total timeout", "remaining-time computation timeout_left() (Instant arithmetic)"],
+                    "the arithmetic of std::time::Instant (opaque shim: now/add/duration_since carry no contract)", "the value of the default limit"],
     "callsites": [("src/executors/stateful_executor.rs", ".into_iter().filter(|item| item.is_some()).min()")],
 }
 
@@ -156,7 +158,7 @@ LEVELS["C05"] = {"category": "proof", "technique": "Verus postconditions on extr
     "text": "Unbounded proof for all test cases, outputs and output_stream settings of the verdict function: Ok iff exit code equals the expected one "
             "and the selected stream is accepted; wrong code reported regardless of output; no exit code => never Ok.",
     "design_ref": "DESIGN.md §5 C05", "note": VX_NOTE}
-LEVELS["C14"] = {"category": "proof", "technique": "Kani proof harness (loop-free, full domain) on the extracted struct Timeout's derived Ord",
+LEVELS["C14"] = {"category": "proof", "technique": "Verus postconditions on the extracted limit-resolving expressions + Kani proof harness (loop-free, full domain) on the extracted struct Timeout's derived Ord",
     "text": "Complete proof (no unwinding bound: the code is loop-free) over all pairs of limits that the ordering used to select the effective timeout "
             "orders by duration first. Partial scope: abort/accounting behaviour is out of reach and stated as not decided.",
     "design_ref": "DESIGN.md §5 C14", "note": "Trusted: Kani 0.68/CBMC 6.11; extraction copies the struct with its attributes verbatim; see evidence.assumptions"}
